@@ -10,6 +10,7 @@ import MosnVerif.Lemmas.FrameOwn
 import MosnVerif.Lemmas.H1Seg
 import MosnVerif.Lemmas.H1SegStable
 import MosnVerif.Lemmas.H1Continue
+import MosnVerif.Lemmas.BoltHandover
 /-!
 # C07 — message extraction is independent of how TCP segments the byte stream (property theorems only)
 
@@ -788,5 +789,60 @@ theorem trailer_multiplicity_depends_on_reads :
     trailerAppends trailerSec (attemptsOf 0 8 [3, 6, 7, 8]) = 3 := by decide
 
 end Http1Continue
+
+/-! ### bolt v1 frames on a boltv2 connection: a complete frame is handed on no matter what follows (kinds `seg` / `cuts`,
+harness/c07/boltmix.go) -/
+section BoltHandover
+open MosnVerif.Model.FrameBytes MosnVerif.Model.FrameSteps MosnVerif.Lemmas.BoltHandover
+
+/-- **boltv2_decodes_v1_frames_like_bolt**: over the regenerated guard, first-byte test and minimum lengths of both
+`Decode` functions: on a boltv2 connection a non-empty buffer whose first byte is the bolt v1 protocol code gets exactly
+the answer of the v1 codec — with v1's own minimum length (20), NOT boltv2's (22) — whatever its length. -/
+theorem boltv2_decodes_v1_frames_like_bolt (b : Bytes) (hb : 0 < b.length) (h1 : u8 b 0 = 1) :
+    frameStep_boltv2 b = frameStep_bolt b := frameStep_v1_on_v2 b hb h1
+
+theorem bolt_decodes_v2_frames_like_boltv2 (b : Bytes) (hb : 0 < b.length) (h2 : u8 b 0 = 2) :
+    frameStep_bolt b = frameStep_boltv2 b := frameStep_v2_on_v1 b hb h2
+
+/-- **complete_v1_frame_delivered_whatever_follows**: a frame the v1 codec accepts is handed on by boltv2's `Decode` as
+soon as it is complete: with nothing behind it (last data of the connection, or the read ended right behind it) and with
+anything behind it. -/
+theorem complete_v1_frame_delivered_whatever_follows (f : Bytes) (h1 : u8 f 0 = 1)
+    (hf : frameStep_bolt f = .frame f f.length) (e : Bytes) : frameStep_boltv2 (f ++ e) = .frame f f.length := by
+  have hpos := (stable_bolt.pos f f f.length hf).1
+  have : frameStep_boltv2 f = .frame f f.length := by rw [boltv2_decodes_v1_frames_like_bolt f hpos h1]; exact hf
+  exact stable_boltv2.ext f f f.length e this
+
+/-- **mixed_bolt_stream_delivered**: a stream on a boltv2 connection made of v2 frames boltv2 accepts and v1 frames the
+v1 codec accepts (of ANY length from 20 bytes on), followed by an incomplete frame, in any segmentation: exactly those
+frames, in order, each once; the tail stays in the buffer.  In particular a short v1 frame at the END of the stream is
+delivered. -/
+theorem mixed_bolt_stream_delivered (fs : List Bytes) (t : Bytes)
+    (hv : ∀ f ∈ fs, (u8 f 0 = 1 ∧ frameStep_bolt f = .frame f f.length) ∨ frameStep_boltv2 f = .frame f f.length)
+    (ht : TailOk frameStep_boltv2 t) (chunks : List Bytes) (hc : chunks.flatten = fs.flatten ++ t) :
+    run frameStep_boltv2 chunks = { buf := t, out := fs, failed := false } := by
+  refine valid_stream_delivered frameStep_boltv2 stable_boltv2 fs t (fun f hf => ?_) ht chunks hc
+  rcases hv f hf with ⟨h1, h2⟩ | h
+  · simpa using complete_v1_frame_delivered_whatever_follows f h1 h2 []
+  · exact h
+
+-- a bolt v1 heartbeat acknowledgement: response, no class, no header, no content = 20 bytes
+def v1resp20 : Bytes := [1, 0, 0, 0, 1, 0, 0, 0, 7, 1, 0, 0, 0, 0, 0, 0, 0, 0, 0, 0]
+-- a boltv2 heartbeat request: 24 bytes
+def v2req24 : Bytes := [2, 1, 1, 0, 0, 1, 0, 0, 0, 9, 1, 0, 0, 0, 0, 0, 0, 0, 0, 0, 0, 0, 0, 0]
+example : frameStep_bolt v1resp20 = .frame v1resp20 20 ∧ u8 v1resp20 0 = 1 := by decide
+example : frameStep_boltv2 v1resp20 = .frame v1resp20 20 ∧ frameStep_boltv2 (v1resp20.take 19) = .needMore := by decide
+example : (run frameStep_boltv2 [v2req24 ++ v1resp20]).out = [v2req24, v1resp20] ∧
+    (run frameStep_boltv2 [v2req24 ++ v1resp20]).buf = [] := by decide
+/-- a hand-over placed BEHIND boltv2's own minimum length (`if data.Len() >= LessLen { if code == bolt.ProtocolCode … }`)
+is not prompt: the complete 20-byte v1 frame is answered with "need more data" until two bytes of a LATER frame are
+buffered behind it, and is never handed on when it is the last data of the connection. -/
+def lateHdr (b : Bytes) : Hdr := if !MosnVerif.Gen.FrameLen.boltv2_enough b.length then .needMore else boltHdr true b
+example : envelope lateHdr (boltOk true) v1resp20 = .needMore ∧
+    envelope lateHdr (boltOk true) (v1resp20 ++ [2, 1]) = .frame v1resp20 20 := by decide
+example : (run (envelope lateHdr (boltOk true)) [v2req24 ++ v1resp20]).out = [v2req24] ∧
+    (run (envelope lateHdr (boltOk true)) [v2req24 ++ v1resp20]).buf = v1resp20 := by decide
+
+end BoltHandover
 
 end MosnVerif.Props.C07
